@@ -266,6 +266,10 @@ func ResolveNumericReferences
   // (so a value that does not fit a rune can only arrive as an invalid one and becomes U+FFFD)
   callassert [hexNoWrap] util.ToValidRune#1: validRune(arg0) ==> arg0 == v
   callassert [decNoWrap] util.ToValidRune#2: validRune(arg0) ==> arg0 == v
+  // from the property: the code point is the number the digits denote, and one beyond U+10FFFF is never
+  // passed on as a valid rune (numval: the digits' value, tied to the bytes source[start:i])
+  callassert [hexValue] util.ToValidRune#1: (numval(strkey(source[start:i]), 16) <= 1114111 ==> arg0 == numval(strkey(source[start:i]), 16)) && (numval(strkey(source[start:i]), 16) > 1114111 ==> !validRune(arg0))
+  callassert [decValue] util.ToValidRune#2: (numval(strkey(source[start:i]), 0) <= 1114111 ==> arg0 == numval(strkey(source[start:i]), 0)) && (numval(strkey(source[start:i]), 0) > 1114111 ==> !validRune(arg0))
   modifies nothing
   loop 0 inv 0 <= n && n <= i && i <= limit && limit == len(source) && fresh(buf) && len(buf) == 6
   loop 0 inv !cob.copied ==> sameslice(cob.buffer, source)
